@@ -83,7 +83,7 @@ fn gen(t: &mut Tape, _tier: Tier) -> Scenario {
     }
     let rk = [RK_SLICE, RK_SIM, RK_BUFREADER, RK_CHAIN, RK_CURSOR][t.below(5) as usize];
     sc.set_i("rk", rk);
-    sc.set_i("bufcap", if rk == RK_CHAIN { t.below(20) } else { t.range(1, 40) });
+    sc.set_i("bufcap", if rk == RK_CHAIN { t.below(20) } else { crate::gen::draw_bufcap(t, 40) });
     sc.set_l("src_script", crate::gen::draw_script(t));
     sc.note = format!(
         "lc={} lp={} pb={} dict_hdr={} true length {} marker={} header size field {} {}; {}",
